@@ -469,7 +469,7 @@ def run(ctx):
     if thorough and ctx.scale == 1:
         codes = list(range(1 << 16))
     else:
-        codes = sorted(rng.sample(range(1 << 16), min(1 << 16, ctx.budget(1500, 1 << 16))))
+        codes = sorted(rng.sample(range(1 << 16), min(1 << 16, ctx.budget(1000, 1 << 16))))
     chunks = [codes[i:i + 2048] for i in range(0, len(codes), 2048)]
     items = []
     acc = new_acc()
